@@ -124,8 +124,9 @@ template <> struct Tr<BaseGraph::UndirectedWeightedGraph> {
 // WEIGHTED -> the weight multiplied by 4 (all weights used are multiples of 1/4, so sums are exact).
 inline std::string hexd(double d) { // exact, and readable for the dyadic values used here
     char b[64];
-    if (d == (long)d && d > -1e6 && d < 1e6) snprintf(b, sizeof b, "%ld", (long)d);
-    else if (d * 4 == (long)(d * 4) && d > -1e6 && d < 1e6) snprintf(b, sizeof b, "%.2f", d);
+    if (!(d > -1e6 && d < 1e6)) snprintf(b, sizeof b, "%a", d); // also inf / nan
+    else if (d == (double)(long)d) snprintf(b, sizeof b, "%ld", (long)d);
+    else if (d * 4 == (double)(long)(d * 4)) snprintf(b, sizeof b, "%.2f", d);
     else snprintf(b, sizeof b, "%a", d);
     return b;
 }
